@@ -1,6 +1,7 @@
 import Amqp.Lemmas.Errors
 import Amqp.Gen.Skel
 import Amqp.Gen.ChanErr
+import Amqp.Model.Parked
 /-!
 # C07 — broker-reported errors are raised faithfully and only where they belong
 
@@ -205,5 +206,42 @@ theorem skel_Basic__publish_confirm : Gen.Skel.Basic__publish_confirm =
   ["call:_channel.rpc.register_request", "call:_channel.write_frames",
     "call:_channel.rpc.get_request", "if", "then", "call:_channel.check_for_exceptions",
     "endif", "if", "then", "return", "endif", "return"] := by decide
+
+end Amqp.C07
+
+/-! ## Parked errors and several threads (`Model/Parked.lean`) -/
+namespace Amqp.C07
+open Amqp.Parked
+
+/-- **Each returned message is raised once**: whatever number of calls `n` the threads sharing the channel
+    make, in whatever order their takes happen, what was raised followed by what is still parked is exactly
+    what was parked - nothing twice, nothing lost, oldest first -/
+theorem parked_errors_raised_once (n : Nat) (q : List Nat) : (takes n q).1 ++ (takes n q).2 = q := by
+  induction n generalizing q with
+  | zero => rfl
+  | succ n ih =>
+    cases q with
+    | nil => simpa [takes, take] using ih []
+    | cons e r => simp [takes, take, ih r]
+
+/-- enough calls raise every parked error -/
+theorem parked_errors_all_raised (n : Nat) (q : List Nat) (h : q.length ≤ n) : (takes n q).1 = q := by
+  induction n generalizing q with
+  | zero => cases q with
+    | nil => rfl
+    | cons e r => simp at h
+  | succ n ih =>
+    cases q with
+    | nil => simpa [takes, take] using ih [] (by simp)
+    | cons e r => simp [takes, take, ih r (by simpa using h)]
+
+/-- **Why the take must be one step**: with "read the head" and "delete the head" as two steps, two threads
+    that both read before either deletes raise 312 twice and 313 is never raised -/
+theorem read_then_delete_raises_twice :
+    (runNA { q := [312, 313] } [.read 0, .read 1, .del 0, .del 1]).raised = [312, 312] ∧
+    (runNA { q := [312, 313] } [.read 0, .read 1, .del 0, .del 1]).q = [] := by decide
+
+/-- ... while any schedule in which each thread's two steps are adjacent behaves like `takes` -/
+example : (runNA { q := [312, 313] } [.read 0, .del 0, .read 1, .del 1]).raised = (takes 2 [312, 313]).1 := by decide
 
 end Amqp.C07
